@@ -811,10 +811,20 @@ def super_call(E, sp, name, args, kw, st, node):
     raise OutsideSubset(f"super().{name}")
 
 
+def _strip_known_some(E, v, st):
+    """an Optional value that the path condition already knows to be present is handed on as the value itself
+    (`if x.f is not None: xs.append(x.f)`: attribute chains cannot be re-bound by narrowing)"""
+    if isinstance(v, SVal) and isinstance(v.ty, TOpt) and v.t is not None:
+        dt = E.U.dt(v.ty)
+        if not E.feasible(st, z3.Not(dt.is_some(v.t))):
+            return SVal(dt.get(v.t), v.ty.inner, v.origin)
+    return v
+
+
 def empty_method(E, recv, name, lv, args, kw, st, node):
     kind = recv.kind
     if kind == "list" and name == "append":
-        v = _mat(E, args[0], st)
+        v = _strip_known_some(E, _mat(E, args[0], st), st)
         nv = SVal(Q.Unit(v.t), TList(v.ty))
         E.mutate(st, lv, recv, nv)
         yield st, SVal(None, NONE)
@@ -849,7 +859,7 @@ def empty_method(E, recv, name, lv, args, kw, st, node):
 def list_method(E, recv, name, lv, args, kw, st, node):
     ty = recv.ty
     if name == "append":
-        v = E.coerce(args[0], ty.elem, st)
+        v = E.coerce(_strip_known_some(E, args[0], st) if isinstance(args[0], SVal) else args[0], ty.elem, st)
         E.mutate(st, lv, recv, SVal(Q.Concat(recv.t, Q.Unit(v.t)), ty))
         yield st, SVal(None, NONE)
     elif name == "extend":
